@@ -20,3 +20,5 @@ import Gleece.Properties.Link
 #print axioms Gleece.Doc.templateParams_normPath
 #print axioms Gleece.Doc.tpa_buffer_irrelevant
 #print axioms Gleece.Link.accepted_route_document_closed_partial
+#print axioms Gleece.Doc.usageType_known
+#print axioms Gleece.Doc.raw_type_of_time_unknown
